@@ -640,7 +640,7 @@ func runPath(P *Program, cfg *RunConfig, s *Solver, harness string, prefix []Dec
 	}
 	in := &Interp{P: P, ex: p, tb: tb, globals: map[*ssa.Global]Ptr{}, budget: cfg.StepBudget,
 		sliceData: map[Ptr][]Value{}, objTags: map[any]string{}, funcsSeen: map[*ssa.Function]bool{},
-		nativeCache: map[string]any{}}
+		nativeCache: map[string]any{}, initRunning: map[string]bool{}}
 	in.sched = &schedState{mutexes: map[Ptr]*mutexState{}, wgs: map[Ptr]*wgState{}, onces: map[Ptr]bool{}, explore: cfg.ScheduleMode, maxPreempt: -1}
 	if v, ok := cfg.Params["preemptions"]; ok {
 		in.sched.maxPreempt = v
